@@ -238,6 +238,8 @@ REGISTRY = {
 def setup():
     try:
         common.build_harness()
+        common.build_binary()
+        common.build_shim()
     except common.Inconclusive as e:
         log(str(e))
         return 1
